@@ -51,7 +51,10 @@ def oracle(case, observed):
         if m is not None:
             # calls on the message: those after the LLM / action call that produced it
             ocalls_m = [(o[1], o[2]) for o in obs[produced_at + 1:] if o[0] == "O"]
-            exp, final, rej = D.expected_rail_calls(turn["ov"], m, rewriting=(ver == "v1"))
+            if (turn.get("opt") or {}).get("output", True):
+                exp, final, rej = D.expected_rail_calls(turn["ov"], m, rewriting=(ver == "v1"))
+            else:
+                exp, final, rej = [], m, None     # the caller switched the output rails off for THIS call only
             if ocalls_m != exp:
                 if ver == "v2" and flag_was_set:
                     sig = "v2-output-rails-flag-stuck-after-block"
